@@ -2,6 +2,8 @@
 # Build the overlay interpreter: a 3.12 venv with z3-solver / cvc5 / jsonschema from the offline
 # wheelhouse plus a .pth that makes /venv's site-packages (numpy, pandas, the editable acnportal) visible.
 cd "$(dirname "$0")" || exit 1
+# two checks started side by side in a fresh checkout must not build the interpreter at the same time
+if command -v flock >/dev/null 2>&1; then exec 9>.venv.lock; flock 9; fi
 if [ -x .venv/bin/python ] && .venv/bin/python -c "import z3, numpy, acnportal" 2>/dev/null; then exit 0; fi
 rm -rf .venv
 /venv/bin/python -m venv .venv || exit 1
